@@ -57,7 +57,8 @@ def _run(level, cfg, events, var, perm):
         from . import policyenv
         return policyenv.run_policy_scenario(cfg, events, entry=var["entry"], perm=perm,
                                              place=var.get("place", "call"),
-                                             async_callbacks=var.get("async_callbacks", False))
+                                             async_callbacks=var.get("async_callbacks", False),
+                                             flavours=var.get("flavours"))
     return retryenv.run_scenario(cfg, events, entry=var["entry"], perm=perm,
                                  place=var.get("place", "call"),
                                  async_callbacks=var.get("async_callbacks", False),
